@@ -41,6 +41,7 @@ class FortranAST:
         self.enc_scope_name: str | None = None
         self.last_obj = None
         self.pending_doc: str | None = None
+        self.merged_line: int | None = None  # statement merged into last_obj
 
     def create_none_scope(self):
         """Create empty scope to hold non-module contained items"""
@@ -119,6 +120,18 @@ class FortranAST:
         if self.pending_doc is not None:
             self.last_obj.add_doc(self.pending_doc)
             self.pending_doc = None
+
+    def merged_variable(self, name: str, line_number: int):
+        """A statement was merged into the earlier declaration of ``name``
+        (``EXTERNAL`` given by a statement of its own): it is the last object"""
+        for var in reversed(self.external_objs):
+            if var.name.lower() == name.lower():
+                self.last_obj = var
+                self.merged_line = line_number
+                if self.pending_doc is not None:
+                    var.add_doc(self.pending_doc)
+                    self.pending_doc = None
+                return
 
     def add_int_member(self, key):
         self.current_scope.add_member(key)
